@@ -377,13 +377,13 @@ pub fn zoo_conformance(a: &Args, shared: &SharedReport, prefix: &str, th: bool) 
             let m = build_sys(&cfg, z.tabs(), &z.net(cfg.kind));
             let rv = json!({"engine": "e3zoo", "zoo": z.name, "cfg": cfg});
             begin_case(shared, &format!("zoo {} {:?}", z.name, cfg), rv.clone(), "machinery:hang");
-            let g = xplore(&m, from_real, 4000, if th { 14 } else { 10 });
+            let g = xplore(&m, from_real, if th { 40_000 } else { 4000 }, if th { 18 } else { 10 });
             let tabs = z.tabs();
             // the builder describes the same model whatever the order of its calls
             let mut order_diff: Vec<String> = Vec::new();
             for order in [1u8, 2] {
                 let m2 = build_sys_order(&cfg, z.tabs(), &z.net(cfg.kind), order);
-                let g2 = xplore(&m2, from_real, 4000, if th { 14 } else { 10 });
+                let g2 = xplore(&m2, from_real, if th { 40_000 } else { 4000 }, if th { 18 } else { 10 });
                 // (exploration order may differ between two instances: compare as maps from state to its action multiset)
                 let acts = |g: &XGraph<SysState, SysAction, RState>| -> BTreeMap<RState, Vec<RAct>> { g.keys.iter().cloned().zip(g.edges.iter().map(|es| sorted(&es.iter().map(|(a, _)| act_from_real(a)).collect::<Vec<_>>()))).collect() };
                 if acts(&g2) != acts(&g) {
@@ -401,7 +401,7 @@ pub fn zoo_conformance(a: &Args, shared: &SharedReport, prefix: &str, th: bool) 
             }
             for (i, key) in g.keys.iter().enumerate() {
                 r.states += 1;
-                if g.edges[i].is_empty() && g.depth[i] >= (if th { 14 } else { 10 }) {
+                if g.edges[i].is_empty() && g.depth[i] >= (if th { 18 } else { 10 }) {
                     continue; // frontier of the depth bound, not expanded
                 }
                 let acts: Vec<RAct> = g.edges[i].iter().map(|(a, _)| act_from_real(a)).collect();
@@ -693,7 +693,7 @@ pub fn run_c07(a: &Args, shared: &SharedReport) {
     {
         let mut r = shared.lock().unwrap();
         r.rule = "(i) every network content within the bound per kind: send/len/iter_all/iter_deliverable vs the reference multiset, and every deliver/drop step through next_state; (ii) every path to the depth bound of the zoo systems per kind x lossiness with a ghost ledger per envelope; non-trivial = network holds >= 2 copies / path has >= 2 steps".into();
-        r.bounds = json!({"network_contents": "<=3 envelopes from a 5-envelope universe (views and steps)", "trace_depth": if th {12} else {10}, "kinds": ["ordered","nondup","dup"], "lossy": [true,false]});
+        r.bounds = json!({"network_contents": if th {"<=4 envelopes from a 5-envelope universe (views), <=3 (steps)"} else {"<=3 envelopes from a 5-envelope universe (views and steps)"}, "trace_depth": if th {18} else {10}, "kinds": ["ordered","nondup","dup"], "lossy": [true,false]});
     }
     // (0) a network chosen by name has the semantics of that name
     if a.shard == 0 {
@@ -732,7 +732,7 @@ pub fn run_c07(a: &Args, shared: &SharedReport) {
     // (i) views on every constructible network
     if a.shard == 0 {
         for kind in [NetKind::Ordered, NetKind::NonDup, NetKind::Dup] {
-            for net in networks(kind, 3) {
+            for net in networks(kind, if th { 4 } else { 3 }) {
                 let rv = json!({"engine": "e3net", "net": net});
                 begin_case(shared, "network views", rv, "machinery:hang");
                 let mut r = shared.lock().unwrap();
@@ -779,7 +779,7 @@ pub fn run_c07(a: &Args, shared: &SharedReport) {
         }
     }
     // (ii) all paths with the ghost ledger
-    let depth = if th { 12 } else { 10 };
+    let depth = if th { 18 } else { 10 };
     let mut idx = 0u64;
     for z in zoo() {
         for kind in [NetKind::Ordered, NetKind::NonDup, NetKind::Dup] {
@@ -792,7 +792,7 @@ pub fn run_c07(a: &Args, shared: &SharedReport) {
                 if crashes > 0 && lossy && !th {
                     continue;
                 }
-                let depth = if crashes > 0 { depth.min(if th { 9 } else { 7 }) } else { depth };
+                let depth = if crashes > 0 { depth.min(if th { 12 } else { 7 }) } else { depth };
                 let cfg = SysCfg { kind, lossy, max_crashes: crashes, hist: HistMode::Off };
                 let m = build_sys(&cfg, z.tabs(), &z.net(kind));
                 let rv = json!({"engine": "e3trace", "zoo": z.name, "cfg": cfg, "depth": depth});
@@ -841,12 +841,12 @@ pub fn run_c09(a: &Args, shared: &SharedReport) {
     {
         let mut r = shared.lock().unwrap();
         r.rule = "(i) Crash offered <=> up and budget left, on every constructed state x budget 0..3; (ii) crash step vs reference; (iii) differential crashed-vs-uncrashed on every (state, action, output); monitor over every reachable zoo state; (iv) the real bfs/dfs visit exactly the xplore-reachable set incl. every crashed-vector; (v) identical peers with a crash budget: dfs with .symmetry() evaluates every symmetry class of crashed configurations the plain search reaches; non-trivial = state has a crashed actor or the action is a crash".into();
-        r.bounds = json!({"actors": "2 (constructed), 2-3 (zoo)", "budget": if th {"0..3"} else {"0..2"}, "zoo_depth": if th {14} else {10}, "outputs": "51 (command lists of length <=1 x 3 state ops)"});
+        r.bounds = json!({"actors": "2 (constructed), 2-3 (zoo)", "budget": if th {"0..3"} else {"0..2"}, "zoo_depth": if th {18} else {10}, "outputs": if th {"819 (command lists of length <=2 x 3 state ops)"} else {"51 (command lists of length <=1 x 3 state ops)"}});
     }
-    let menu = output_menu(1, 7);
+    let menu = output_menu(if th { 2 } else { 1 }, 7);
     let mut idx = 0u64;
     for kind in [NetKind::Ordered, NetKind::NonDup, NetKind::Dup] {
-        let states = constructed_states(kind, false);
+        let states = constructed_states(kind, th);
         for s in &states {
             idx += 1;
             if idx % a.nshards != a.shard {
